@@ -35,7 +35,7 @@ def obligations(tier):
                         config={'nl': 2, 'nr': 2, 'kind': kind, 'mode': 'card', 'expect': 'one_to_one', 'K': 1, 'W': 0, 'ktype': 'hashy', 'spec': 'name', 'nones': False},
                         budget=120 if q else 600, bounds='2x2 rows, keys are distinct ints with pairwise colliding hashes', smoke=joinlib.smoke(2, 2, 1, 0)))
         obs.append(dict(name='card[%s,one_to_one,2x2,K=3]' % kind, fn='h_join',
-                        config={'nl': 2, 'nr': 2, 'kind': kind, 'mode': 'card', 'expect': 'one_to_one', 'K': 3, 'W': 0, 'ktype': 'int', 'spec': 'name', 'nones': False},
+                        config={'nl': 2, 'nr': 2, 'kind': kind, 'mode': 'card', 'expect': 'one_to_one', 'K': 3, 'W': 0, 'ktype': 'int', 'spec': 'name', 'nones': False, 'K2const': q},
                         budget=200 if q else 900, bounds='2x2 rows, 3-component key', smoke=joinlib.smoke(2, 2, 2, 0)))
         for ex in ('one_to_one', 'many_to_one', 'one_to_many'):
             for nl, nr in ((1, 2), (2, 1)):
